@@ -11,9 +11,13 @@
 (*   ReadEnd{d, kind} WriteErr{d}             (scripted conns only) the relay's Read on the     *)
 (*                                            source of direction d got EOF/err; its Write failed *)
 (*   RelayCloseWrite{e} RelayClose{e}         (scripted conns only) relay called these on conn e *)
-(*   RelayDeadline{e, inMs}                   (scripted conns) relay set a read deadline on conn e; *)
-(*                                            ReadEnd kind "timeout" = it expired on the scripted   *)
-(*                                            clock (one second per step, traffic in every step)    *)
+(*   RelayDeadline{e, op, inMs}               (scripted conns) relay set a read/write deadline on   *)
+(*                                            conn e                                                *)
+(*   ReadTimeout{d} WriteTimeout{d}           (scripted conns) such a deadline had passed on the    *)
+(*                                            scripted clock (one second per step, traffic in every  *)
+(*                                            step) when the relay read the source / wrote the        *)
+(*                                            destination of direction d: the call failed with a      *)
+(*                                            time-out; the stream itself has not ended                *)
 (*   Returned{...} | Hung                     the call returned / had not returned when the      *)
 (*                                            watchdog (5 s) expired                             *)
 (* UDP relay (iocopy.UDP)                                                                        *)
@@ -30,6 +34,8 @@
 (*   UFlushTimeout{have}                      datagrams sent by the peer were not on the tunnel    *)
 (*                                            2 s later (flush interval is 20 ms)                  *)
 (*   TunnelEnd                                the relay's Read on the tunnel returned EOF/err      *)
+(*   UTimeout{side, op}                       (scripted conns) a deadline set by the relay had      *)
+(*                                            passed on the scripted clock: the call timed out       *)
 (*   Returned{...} | Hung{why}                                                                     *)
 (* Clauses:                                                                                     *)
 (*   Pipe         every delivery continues the in-order prefix of what the other side sent     *)
@@ -58,8 +64,10 @@ Dst(d) == IF d = "AB" THEN "B" ELSE "A"
 B0 == [sent |-> [e \in Ends |-> 0], got |-> [e \in Ends |-> 0],
        wr |-> [e \in Ends |-> "open"], rdClosed |-> [e \in Ends |-> FALSE],
        dirEnded |-> [d \in {"AB", "BA"} |-> FALSE], rcw |-> [e \in Ends |-> FALSE],
-       order |-> "", obs |-> FALSE]
-U0 == [t |-> <<>>, u |-> <<>>, cut |-> 0, how |-> "eof", ugot |-> 0, tgot |-> 0, usent |-> 0, ended |-> FALSE, sc |-> "", lossy |-> FALSE, sock |-> "fake"]
+       rtmo |-> [d \in {"AB", "BA"} |-> FALSE], wtmo |-> [d \in {"AB", "BA"} |-> FALSE],
+       order |-> "", obs |-> FALSE, sc |-> ""]
+U0 == [t |-> <<>>, u |-> <<>>, cut |-> 0, how |-> "eof", ugot |-> 0, tgot |-> 0, usent |-> 0, ended |-> FALSE, sc |-> "", lossy |-> FALSE, sock |-> "fake",
+       whole |-> 0, key |-> ""]     \* whole = Whole(t, cut), key = the behaviour's input class - computed once per trace
 
 Init == l = 1 /\ viol = {} /\ mode = "none" /\ b = B0 /\ ud = U0
 
@@ -74,10 +82,12 @@ CutClass(sizes, c) ==
 SizeClass(n) == IF n <= 2 THEN ToString(n) ELSE IF n <= 255 THEN "255" ELSE "65535"
 
 Keep(x) == x' = x
+Sb == IF b.sc = "" THEN "" ELSE ":" \o b.sc     \* scenario tag of a TCP relay trace
 Step == l' = l + 1
 
 \* ---- TCP relay ---------------------------------------------------------------------------------
-TrBStart == /\ Is("BStart") /\ Step /\ mode' = "bidi" /\ b' = [B0 EXCEPT !.obs = (Ev.conn = "fake")]
+TrBStart == /\ Is("BStart") /\ Step /\ mode' = "bidi"
+            /\ b' = [B0 EXCEPT !.obs = (Ev.conn = "fake"), !.sc = IF Has("sc") THEN Ev.sc ELSE ""]
             /\ Keep(viol) /\ Keep(ud)
 
 TrSend == /\ Is("Send") /\ Step
@@ -102,13 +112,17 @@ TrDeliver ==
         /\ b' = [b EXCEPT !.got[e] = IF Ev.off = @ THEN @ + Ev.len ELSE @]
   /\ Keep(mode) /\ Keep(ud)
 
-\* kind = "timeout": a read deadline the relay itself put on the conn has expired (scripted clock).
-\* Time alone must not end a direction whose source is open and has had traffic every second.
 TrReadEnd == /\ Is("ReadEnd") /\ Step
              /\ b' = [b EXCEPT !.dirEnded[Ev.d] = TRUE]
-             /\ viol' = viol \cup (IF Ev.kind = "timeout" /\ b.wr[Src(Ev.d)] = "open" /\ ~b.rdClosed[Dst(Ev.d)]
-                                   THEN {V("ReverseFlow", "readDeadlineCutsLiveDirection:" \o Ev.d \o ":" \o b.order)} ELSE {})
-             /\ Keep(mode) /\ Keep(ud)
+             /\ Keep(viol) /\ Keep(mode) /\ Keep(ud)
+\* A deadline the relay itself put on a conn has expired (scripted clock) and failed a Read / a Write of
+\* direction d.  That alone is no violation (a relay may poll and go on); it is one when the direction is
+\* then given up although its source is open / has not delivered everything (decided at Returned): time
+\* alone must not end a direction that has had traffic every second.
+TrReadTimeout == /\ Is("ReadTimeout") /\ Step /\ b' = [b EXCEPT !.rtmo[Ev.d] = TRUE]
+                 /\ Keep(viol) /\ Keep(mode) /\ Keep(ud)
+TrWriteTimeout == /\ Is("WriteTimeout") /\ Step /\ b' = [b EXCEPT !.wtmo[Ev.d] = TRUE]
+                  /\ Keep(viol) /\ Keep(mode) /\ Keep(ud)
 TrRelayDeadline == /\ Is("RelayDeadline") /\ Step /\ Keep(b) /\ Keep(viol) /\ Keep(mode) /\ Keep(ud)
 TrWriteErr == /\ Is("WriteErr") /\ Step
               /\ b' = [b EXCEPT !.dirEnded[Ev.d] = TRUE]
@@ -120,7 +134,7 @@ TrRelayCloseWrite ==
   /\ Keep(mode) /\ Keep(ud)
 TrRelayClose ==
   /\ Is("RelayClose") /\ Step
-  /\ viol' = viol \cup (IF b.dirEnded["AB"] /\ b.dirEnded["BA"] THEN {} ELSE {V("ReverseFlow", "closeBeforeBothDirectionsOver:" \o Ev.e \o ":" \o b.order)})
+  /\ viol' = viol \cup (IF b.dirEnded["AB"] /\ b.dirEnded["BA"] THEN {} ELSE {V("ReverseFlow", "closeBeforeBothDirectionsOver:" \o Ev.e \o ":" \o b.order \o Sb)})
   /\ Keep(b) /\ Keep(mode) /\ Keep(ud)
 
 BIncomplete == {d \in {"AB", "BA"} : b.wr[Src(d)] = "shut" /\ ~b.rdClosed[Dst(d)] /\ b.got[Dst(d)] # b.sent[Src(d)]}
@@ -128,8 +142,10 @@ BLive == {d \in {"AB", "BA"} : b.wr[Src(d)] = "open" /\ ~b.rdClosed[Dst(d)]}
 
 TrReturnedB ==
   /\ Is("Returned") /\ mode = "bidi" /\ Step
-  /\ viol' = viol \cup {V("Complete", d \o ":" \o b.order) : d \in BIncomplete}
-                  \cup {V("EarlyReturn", d \o ":" \o b.order) : d \in BLive}
+  /\ viol' = viol \cup {V("Complete", d \o ":" \o b.order \o Sb) : d \in BIncomplete}
+                  \cup {V("EarlyReturn", d \o ":" \o b.order \o Sb) : d \in BLive}
+                  \cup {V("ReverseFlow", "readDeadlineCutsLiveDirection:" \o d \o ":" \o b.order) : d \in {x \in BIncomplete \cup BLive : b.rtmo[x]}}
+                  \cup {V("ReverseFlow", "writeDeadlineCutsLiveDirection:" \o d \o ":" \o b.order) : d \in {x \in BIncomplete \cup BLive : b.wtmo[x]}}
   /\ Keep(b) /\ Keep(mode) /\ Keep(ud)
 TrHungB ==
   /\ Is("Hung") /\ mode = "bidi" /\ Step
@@ -139,10 +155,11 @@ TrHungB ==
 \* ---- UDP relay ---------------------------------------------------------------------------------
 TrUStart == /\ Is("UStart") /\ Step /\ mode' = "udp"
             /\ ud' = [U0 EXCEPT !.t = Ev.t, !.u = Ev.u, !.cut = Ev.cut, !.how = Ev.how,
+                                 !.whole = Whole(Ev.t, Ev.cut), !.key = "udp:" \o Ev.how \o ":cut=" \o CutClass(Ev.t, Ev.cut),
                                  !.sc = IF Has("sc") THEN Ev.sc ELSE "", !.sock = IF Has("sock") THEN Ev.sock ELSE "fake", !.lossy = IF Has("lossy") THEN Ev.lossy ELSE FALSE]
             /\ Keep(viol) /\ Keep(b)
 
-UKey == "udp:" \o ud.how \o ":cut=" \o CutClass(ud.t, ud.cut)
+UKey == ud.key
 Sc == IF ud.sc = "" THEN "" ELSE ":" \o ud.sc
 
 TrUDeliver ==
@@ -152,7 +169,7 @@ TrUDeliver ==
          bad == (IF i # ud.ugot + 1 THEN {V("Datagram", "t2u:order:size=" \o sz \o Sc)} ELSE {})
            \cup (IF i \in 1..Len(ud.t) /\ Ev.len # ud.t[i] THEN {V("Datagram", "t2u:boundary:size=" \o sz \o Sc)} ELSE {})
            \cup (IF ~Ev.ok THEN {V("Datagram", "t2u:content:size=" \o sz \o Sc)} ELSE {})
-           \cup (IF i \notin 1..Whole(ud.t, ud.cut) THEN {V("Datagram", "t2u:invented:" \o UKey)} ELSE {})
+           \cup (IF i \notin 1..ud.whole THEN {V("Datagram", "t2u:invented:" \o UKey)} ELSE {})
      IN /\ viol' = viol \cup bad
         /\ ud' = [ud EXCEPT !.ugot = IF i = @ + 1 THEN i ELSE @]
   /\ Keep(mode) /\ Keep(b)
@@ -177,13 +194,16 @@ TrTJunk == /\ Is("TJunk") /\ Step /\ viol' = viol \cup {V("Datagram", "u2t:parti
            /\ Keep(ud) /\ Keep(mode) /\ Keep(b)
 TrUFlushTimeout == /\ Is("UFlushTimeout") /\ Step /\ viol' = viol \cup {V("Flush", "u2t:notOnTunnelAfter2s" \o Sc)}
                    /\ Keep(ud) /\ Keep(mode) /\ Keep(b)
+\* a deadline the relay put on the scripted UDP socket / tunnel conn has passed (scripted clock) and failed
+\* a call: no violation by itself - what it costs (datagrams not relayed, Hung) is judged by the other clauses
+TrUTimeout == /\ Is("UTimeout") /\ Step /\ Keep(viol) /\ Keep(ud) /\ Keep(mode) /\ Keep(b)
 TrTunnelEnd == /\ Is("TunnelEnd") /\ Step /\ ud' = [ud EXCEPT !.ended = TRUE]
                /\ Keep(viol) /\ Keep(mode) /\ Keep(b)
 
 TrReturnedU ==
   /\ Is("Returned") /\ mode = "udp" /\ Step
-  /\ viol' = viol \cup (IF ud.how = "eof" /\ ud.ugot < Whole(ud.t, ud.cut) THEN {V("Complete", "t2u:" \o UKey \o (IF ud.sock = "vconn" THEN ":virtualConn" ELSE IF ud.sock = "real" THEN ":realSocket" ELSE ""))} ELSE {})
-                  \cup (IF ~ud.ended THEN {V("EarlyReturn", UKey)} ELSE {})
+  /\ viol' = viol \cup (IF ud.how = "eof" /\ ud.ugot < ud.whole THEN {V("Complete", "t2u:" \o UKey \o (IF ud.sock = "vconn" THEN ":virtualConn" ELSE IF ud.sock = "real" THEN ":realSocket" ELSE ""))} ELSE {})
+                  \cup (IF ~ud.ended THEN {V("EarlyReturn", UKey \o Sc)} ELSE {})
   /\ Keep(ud) /\ Keep(mode) /\ Keep(b)
 TrHungU ==
   /\ Is("Hung") /\ mode = "udp" /\ Step
@@ -193,10 +213,10 @@ TrHungU ==
 TrEnd == /\ Is("End") /\ EmitVerdict
          /\ Step /\ viol' = {} /\ mode' = "none" /\ b' = B0 /\ ud' = U0
 
-Next == \/ TrBStart \/ TrSend \/ TrEpEnd \/ TrDeliver \/ TrReadEnd \/ TrWriteErr
+Next == \/ TrBStart \/ TrSend \/ TrEpEnd \/ TrDeliver \/ TrReadEnd \/ TrWriteErr \/ TrReadTimeout \/ TrWriteTimeout
         \/ TrRelayCloseWrite \/ TrRelayClose \/ TrRelayDeadline \/ TrReturnedB \/ TrHungB
         \/ TrUStart \/ TrUDeliver \/ TrUSent \/ TrTRecord \/ TrTJunk \/ TrUFlushTimeout
-        \/ TrTunnelEnd \/ TrReturnedU \/ TrHungU
+        \/ TrTunnelEnd \/ TrUTimeout \/ TrReturnedU \/ TrHungU
         \/ TrEnd
 Spec == Init /\ [][Next]_vars
 =============================================================================
